@@ -561,28 +561,42 @@ pub fn train_ledger(spec: &NetSpec, iters: usize, seed: u64) -> TrainLedger {
             let costf: CostFunction = if spec.ce { cost::cross_entropy() } else { cost::mse() };
             let refs: Vec<&mut dyn Layer> = layers.iter_mut().map(|s| s as &mut dyn Layer).collect();
             let mut model = Model::new(refs, &opt, &costf);
-            let mut prev_input: Option<Array> = None;
+            let mut prev: Option<(Array, Array)> = None;
+            let mut probe = |what: &str, it: usize, a: Array, failures: &mut Vec<(usize, String)>| {
+                probes += 1;
+                if let Err(m) = guard(move || {
+                    let _v: Vec<Float> = Vec::from(a);
+                }) {
+                    failures.push((it, format!("{}: {}", what, m)));
+                }
+            };
             for it in 0..iters {
                 let input = arr_t(&gen_input(&mut r, spec, false));
                 let mine = input.clone();
                 let out = model.forward(input);
-                // the model has moved on: nothing of the previous iteration may still reference its input
-                if let Some(p) = prev_input.take() {
-                    probes += 1;
-                    if let Err(m) = guard(move || {
-                        let _v: Vec<Float> = Vec::from(p);
-                    }) {
-                        failures.push((it - 1, m));
-                    }
+                // the model has moved on: nothing of the previous iteration may still reference its input or its target
+                if let Some((pi, pt)) = prev.take() {
+                    probe("input of the previous iteration", it - 1, pi, &mut failures);
+                    probe("target of the previous iteration", it - 1, pt, &mut failures);
                 }
                 let target = arr_t(&gen_target(&mut r, out.dimensions()));
+                let my_target = target.clone();
                 drop(out);
                 let _loss = model.backward(target);
-                model.update();
-                prev_input = Some(mine);
-                boundaries.push(ledger::live());
+                // an evaluation-only iteration (loss wanted, no step) now and then
+                let evaluation_only = r.chance(1, 4);
+                if !evaluation_only {
+                    model.update();
+                    boundaries.push(ledger::live());
+                }
+                prev = Some((mine, my_target));
             }
-            drop(prev_input);
+            // the model is gone; layers, optimizer and cost closure are still in scope (user code keeps them)
+            drop(model);
+            if let Some((pi, pt)) = prev.take() {
+                probe("input of the last iteration, model dropped", iters - 1, pi, &mut failures);
+                probe("target of the last iteration, model dropped", iters - 1, pt, &mut failures);
+            }
         }
         let after = ledger::live();
         if round == 1 {
